@@ -1,3 +1,6 @@
+"""C05 finding (fixed): a Retry packet with a 1154-byte token leaves exactly one byte of room after the
+Initial header; the PING probe fits, the sample-size padding byte does not, and datagrams_to_send
+raised BufferWriteError.  exit 0 when no API call raises."""
 from aioquic.quic.configuration import QuicConfiguration
 from aioquic.quic.connection import QuicConnection
 from aioquic.quic.packet import encode_quic_retry, pull_quic_header
@@ -15,4 +18,8 @@ c.receive_datagram(retry, ADDR, now=0.01)
 now=0.01
 for i in range(12):
     print(i, [len(d) for d,_ in c.datagrams_to_send(now=now)])
-    now = c.get_timer(); c.handle_timer(now=now)
+    now = c.get_timer()
+    if now is None:
+        break
+    c.handle_timer(now=now)
+print("OK: no API call raised")
